@@ -28,18 +28,30 @@ def explore(res, rng, n):
         # ratios - all the rule looks at - are unchanged
         sc = rng.choice([1.0, 1.0, 1.0, 2.0 ** -100, 2.0 ** -400, 2.0 ** 300, 2.0 ** -60])
         res.stat('mh_density_scale_' + ('1' if sc == 1.0 else 'tiny' if sc < 1 else 'huge'))
-        def f(x, weights=weights, sc=sc):
-            key = tuple(int(v) for v in np.atleast_1d(x))
+        # the lattice has step h (1, 1/2 or 1/4: exact in binary64); states are carried as lattice indices, the sampler sees index * h.  A start
+        # point with integral coordinates may be handed over as Python ints or an integer array: the chain still moves on the h-lattice
+        h = rng.choice([1.0, 1.0, 0.5, 0.25])
+        def f(x, weights=weights, sc=sc, h=h):
+            key = tuple(int(round(float(v) / h)) for v in np.atleast_1d(x))
             if key not in weights:
                 weights[key] = rng.choice([0, 0, 1, 2, 3, 4, 8, 5])
             return float(weights[key]) * sc
-        cur = [rng.randint(-2, 2) for _ in range(d)]
+        mult = rng.choice([1, int(1 / h)])
+        cur = [rng.randint(-2, 2) * mult for _ in range(d)]
         weights[tuple(cur)] = rng.choice([1, 2, 4, 8, 3])          # the chain starts in the support
         lim = rng.choice([1, 2, 5])
+        sv = [v * h for v in cur]
+        integral = all(float(v).is_integer() for v in sv)
         dom = lambda c, nx, lim=lim: bool(np.all(np.abs(nx) <= lim))
         cands, us = [], []
         prop = lambda c: cands[-1]
-        start = np.array(cur, dtype=float) if i % 3 == 0 else list(map(float, cur))
+        if i % 3 == 0:
+            start = np.array(sv, dtype=float)
+        elif integral and i % 3 == 1:
+            start = [int(v) for v in sv] if rng.random() < 0.6 else np.array([int(v) for v in sv])
+            res.stat('mh_integer_start_h_%g' % h)
+        else:
+            start = list(map(float, sv))
         # an integer randomSeed re-seeds numpy's global generator, nothing else: the acceptance draw is still THE uniform draw of that generator
         # (scripted below); a sampler that draws from a generator of its own would not see it
         seed_kw = {'randomSeed': rng.choice([0, 7, 12345])} if i % 4 == 1 else {}
@@ -49,11 +61,11 @@ def explore(res, rng, n):
         state = list(cur)
         for step in range(rng.choice([1, 3, 6])):
             cand = [v + rng.choice([-1, 0, 1, 2]) for v in state]
-            cands.append(list(map(float, cand)))
+            cands.append([c * h for c in cand])
             uden = rng.choice([2, 4, 8, 16])
             unum = rng.choice([0, 0, 1, uden // 2, uden - 1, uden]) if rng.random() < 0.6 else rng.randrange(uden + 1)
             u = unum / uden
-            fcur, fcand = int(f(np.array(state)) / sc), int(f(np.array(cand)) / sc)
+            fcur, fcand = int(f(np.array(state) * h) / sc), int(f(np.array(cand) * h) / sc)
             if fcur == 0:
                 break
             try:
@@ -61,22 +73,29 @@ def explore(res, rng, n):
                     out = s.getSample()
             except Exception as e:  # noqa
                 fail(res, 'step raised %s on non-negative densities: %s' % (type(e).__name__, str(e)[:80]), 'MetropolisHastingsSampler.getSample',
-                     {'cur': state, 'cand': cand, 'u': [unum, uden], 'fcur': fcur, 'fcand': fcand, 'limit': lim}, None)
+                     {'cur': state, 'cand': cand, 'h': h, 'u': [unum, uden], 'fcur': fcur, 'fcand': fcand, 'limit': lim}, None)
                 break
             res.evaluations += 1
-            if isinstance(start, np.ndarray) and [int(v) for v in start] != list(cur):
+            if isinstance(start, np.ndarray) and [float(v) for v in start] != sv:
                 fail(res, 'the start-point array of the caller was modified by the chain', 'MetropolisHastingsSampler.getSample',
-                     {'start': list(cur), 'cand': cand, 'u': [unum, uden]}, start.tolist())
-                start = np.array(cur, dtype=float)
+                     {'start': sv, 'cand': cand, 'h': h, 'u': [unum, uden]}, start.tolist())
+                start = np.array(sv, dtype=float)
             res.nontrivial.add(('mh', tuple(state), tuple(cand), unum, uden, fcur, fcand))
             res.stat('mh_accept_region' if Fraction(unum, uden) <= Fraction(fcand, fcur) else 'mh_reject_region')
-            res.stat('mh_domain_%s' % ('in' if dom(None, np.array(cand)) else 'out'))
-            new = [int(v) for v in out]
-            case = {'cur': state, 'cand': cand, 'u': [unum, uden], 'fcur': fcur, 'fcand': fcand, 'limit': lim}
-            reqs.append(f'mh {fcur} {fcand} {unum} {uden} {int(dom(None, np.array(cand)))} {int(dom(None, np.array(state)))}')
+            res.stat('mh_domain_%s' % ('in' if dom(None, np.array(cand) * h) else 'out'))
+            new = [float(v) / h for v in out]
+            case = {'cur': state, 'cand': cand, 'h': h, 'start_type': type(start).__name__ + ':' + type(start[0]).__name__, 'u': [unum, uden],
+                    'fcur': fcur, 'fcand': fcand, 'limit': lim}
+            reqs.append(f'mh {fcur} {fcand} {unum} {uden} {int(dom(None, np.array(cand) * h))} {int(dom(None, np.array(state) * h))}')
+            if not all(v.is_integer() for v in new):
+                fail(res, 'the chain moved to a point that is neither the current point nor the candidate', 'MetropolisHastingsSampler.getSample', case,
+                     [float(v) for v in out])
+                reqs.pop()
+                break
+            new = [int(v) for v in new]
             meta.append(('mh', case, new))
             # never leaves the support
-            if fcur > 0 and f(np.array(new)) == 0:
+            if fcur > 0 and f(np.array(new) * h) == 0:
                 sig = 'C14:support:u=0:zero-density-candidate' if unum == 0 and fcand == 0 else None
                 fail(res, 'chain left the support of the target', 'MetropolisHastingsSampler.getSample', case, new, sig)
             state = new
@@ -84,22 +103,30 @@ def explore(res, rng, n):
         d = rng.choice([1, 2, 3, 4])
         tabs = [dict() for _ in range(d)]
         scs = [rng.choice([1.0, 1.0, 1.0, 2.0 ** -100, 2.0 ** -400, 2.0 ** 200]) for _ in range(d)]
-        def mk(j):
+        h = rng.choice([1.0, 1.0, 0.5, 0.25])
+        def mk(j, h=h):
             def fj(x):
-                key = int(np.asarray(x))
+                key = int(round(float(np.asarray(x)) / h))
                 if key not in tabs[j]:
                     tabs[j][key] = rng.choice([0, 1, 2, 4, 8, 3])
                 return float(tabs[j][key]) * scs[j]
             return fj
         fs = [mk(j) for j in range(d)]
-        cur = [rng.randint(-2, 2) for _ in range(d)]
+        mult = rng.choice([1, int(1 / h)])
+        cur = [rng.randint(-2, 2) * mult for _ in range(d)]
         for j in range(d):
             tabs[j][cur[j]] = rng.choice([1, 2, 4, 8])
         lim = rng.choice([2, 4, 9])
         dom = lambda c, nx, lim=lim: bool(np.sum(np.abs(nx)) <= lim)
         cand = list(cur)
-        props = [(lambda c, j=j: float(cand[j])) for j in range(d)]
-        s = rpm.AuModifiedMHSampler(initialVal=list(map(float, cur)), targetPdf=fs, proposalCSampler=props, sampleDomain=dom,
+        props = [(lambda c, j=j, h=h: float(cand[j]) * h) for j in range(d)]
+        sv = [v * h for v in cur]
+        if all(float(v).is_integer() for v in sv) and i % 3 == 1:
+            start = [int(v) for v in sv]                        # (the component-wise sampler takes lists only)
+            res.stat('au_integer_start_h_%g' % h)
+        else:
+            start = list(map(float, sv))
+        s = rpm.AuModifiedMHSampler(initialVal=start, targetPdf=fs, proposalCSampler=props, sampleDomain=dom,
                                     **({'randomSeed': rng.choice([0, 3, 99])} if i % 4 == 2 else {}))
         # a chain of steps on ONE sampler object (scratch buffers persist between steps)
         for step in range(rng.choice([1, 2, 4, 6])):
@@ -107,8 +134,8 @@ def explore(res, rng, n):
             uds = [rng.choice([2, 4, 8]) for _ in range(d)]
             uns = [rng.choice([0, ud, rng.randrange(ud + 1), rng.randrange(ud + 1)]) for ud in uds]
             it = iter([un / ud for un, ud in zip(uns, uds)])
-            fcur = [int(fs[j](cur[j]) / scs[j]) for j in range(d)]
-            fcand = [int(fs[j](cand[j]) / scs[j]) for j in range(d)]
+            fcur = [int(fs[j](cur[j] * h) / scs[j]) for j in range(d)]
+            fcand = [int(fs[j](cand[j] * h) / scs[j]) for j in range(d)]
             if any(v == 0 for v in fcur):
                 break
             try:
@@ -116,15 +143,24 @@ def explore(res, rng, n):
                     out = s.getSample()
             except Exception as e:  # noqa
                 fail(res, 'step raised %s on non-negative densities: %s' % (type(e).__name__, str(e)[:80]), 'AuModifiedMHSampler.getSample',
-                     {'cur': list(cur), 'cand': list(cand), 'u': list(zip(uns, uds)), 'fcur': fcur, 'fcand': fcand, 'limit': lim, 'step': step}, None)
+                     {'cur': list(cur), 'cand': list(cand), 'h': h, 'u': list(zip(uns, uds)), 'fcur': fcur, 'fcand': fcand, 'limit': lim, 'step': step}, None)
                 break
             res.evaluations += 1
             res.nontrivial.add(('au', tuple(cur), tuple(cand), tuple(uns), tuple(uds)))
             res.stat('au_step_%d' % min(step, 3))
-            case = {'cur': list(cur), 'cand': list(cand), 'u': list(zip(uns, uds)), 'fcur': fcur, 'fcand': fcand, 'limit': lim, 'step': step}
+            case = {'cur': list(cur), 'cand': list(cand), 'h': h, 'start_type': type(start).__name__ + ':' + type(start[0]).__name__,
+                    'u': list(zip(uns, uds)), 'fcur': fcur, 'fcand': fcand, 'limit': lim, 'step': step}
+            new = [float(v) / h for v in out]
+            if not all(v.is_integer() for v in new):
+                fail(res, 'the chain moved to a point whose coordinates are neither the current nor the proposed ones', 'AuModifiedMHSampler.getSample',
+                     case, [float(v) for v in out])
+                break
+            if isinstance(start, np.ndarray) and [float(v) for v in start] != sv:
+                fail(res, 'the start-point array of the caller was modified by the chain', 'AuModifiedMHSampler.getSample', case, start.tolist())
+                break
             reqs.append('auflags ' + ','.join(map(str, fcur)) + ' ' + ','.join(map(str, fcand)) + ' ' + ','.join(map(str, uns)) + ' ' + ','.join(map(str, uds)))
-            meta.append(('au', case, [int(v) for v in out]))
-            cur = [int(v) for v in out]
+            meta.append(('au', case, [int(v) for v in new]))
+            cur = [int(v) for v in new]
         if i < 3:
             res.samples.append(case)
     for (kind, case, new), a in zip(meta, core.driver_batch(reqs)):
@@ -140,7 +176,7 @@ def explore(res, rng, n):
                 continue
             flags = [] if a == '-' else [int(x) for x in a.split(',')]
             nxt = [c if fl else k for fl, c, k in zip(flags, case['cand'], case['cur'])]
-            inside = sum(abs(v) for v in nxt) <= case['limit']
+            inside = sum(abs(v) for v in nxt) * case['h'] <= case['limit']
             want = nxt if inside else case['cur']
             if new != want:
                 fail(res, 'component-wise step differs from the rule (per-coordinate accept, one domain test on the assembled candidate)',
